@@ -626,6 +626,13 @@ func replay(cf *evid.CaseFile) error {
 		}
 		return freshOracle(&c)
 	}
+	if cf.Sub == "newcache" {
+		var c NewCacheCase
+		if err := evid.Decode(cf.Gob, &c); err != nil {
+			return err
+		}
+		return newCacheOracle(&c)
+	}
 	if cf.Sub == "rawcache" {
 		var c CacheCase
 		if err := evid.Decode(cf.Gob, &c); err != nil {
@@ -763,6 +770,57 @@ func freshOracle(c *FreshCase) error {
 	return nil
 }
 
+// NewCacheCase: many brand-new caches, each receiving its very first entries
+// from several goroutines at the same moment.  The capacity is ample, so
+// every stored entry has to be found afterwards.
+type NewCacheCase struct{ Attempts, Goroutines int }
+
+func (c *NewCacheCase) Summary() string {
+	return fmt.Sprintf("%d brand-new LRU caches, each receiving its first %d entries from %d goroutines at once", c.Attempts, c.Goroutines, c.Goroutines)
+}
+
+func newCacheOracle(c *NewCacheCase) error {
+	for i := 0; i < c.Attempts; i++ {
+		cache := updog.NewLRUCache(1 << 30)
+		var arrived atomic.Int32
+		_, errs := fanout(c.Goroutines, func(g int) error {
+			bm := roaring.BitmapOf(uint32(g), uint32(i))
+			arrived.Add(1)
+			for spin := 0; spin < 200000 && int(arrived.Load()) < c.Goroutines; spin++ {
+				if spin%64 == 63 {
+					runtime.Gosched()
+				}
+			}
+			return fix.Safe(func() error { cache.Put(uint64(g)+1, bm); return nil })
+		})
+		for _, e := range errs {
+			if e != nil {
+				return fmt.Errorf("cache #%d: first Put: %v", i, e)
+			}
+		}
+		for g := 0; g < c.Goroutines; g++ {
+			var got *roaring.Bitmap
+			var ok bool
+			if err := fix.Safe(func() error { got, ok = cache.Get(uint64(g) + 1); return nil }); err != nil {
+				return fmt.Errorf("cache #%d: Get: %v", i, err)
+			}
+			if !ok || got == nil || !got.Contains(uint32(g)) {
+				return fmt.Errorf("cache #%d (capacity 1 GiB, %d tiny entries stored as its first entries by %d goroutines at once): the entry stored under key %d is not found afterwards (found=%v)", i, c.Goroutines, c.Goroutines, g+1, ok)
+			}
+		}
+	}
+	return nil
+}
+
+func runNewCache(t interface{ Fatalf(string, ...any) }, c *NewCacheCase) {
+	err := newCacheOracle(c)
+	evid.Note("brand_new_caches_first_filled_concurrently", int64(c.Attempts))
+	evid.Case(true, c.Summary(), "new-cache-first-puts")
+	if err != nil {
+		fix.Fail(t, prop, "newcache", c, c.Summary(), err)
+	}
+}
+
 type hangErr struct{ msg string }
 
 func (h *hangErr) Error() string { return h.msg }
@@ -793,6 +851,7 @@ func TestQuick(t *testing.T) {
 	hotWrappers(t, 8, 300)
 	runFresh(t, &FreshCase{Attempts: 700, Readers: 4, Queriers: 4})
 	bigFirstUse(t, 70001, 6, fix.OpenCfg{CacheCap: -1})
+	runNewCache(t, &NewCacheCase{Attempts: 20000, Goroutines: 4})
 	fix.Check(t, "rawcache", 120, func(rt *rapid.T) { runCache(rt, drawCacheCase(rt)) })
 	fix.Check(t, "inprocess", 30, func(rt *rapid.T) { run(rt, drawCase(rt, 5000, false), "inprocess") })
 	fix.Check(t, "server", 3, func(rt *rapid.T) { run(rt, drawCase(rt, 5000, true), "server") })
@@ -807,6 +866,7 @@ func TestThorough(t *testing.T) {
 	if shard, _ := evid.Shard(); shard < 3 {
 		bigFirstUse(t, 70001, 4+4*shard, fix.OpenCfg{Preload: shard == 1, CacheCap: int64(shard-1) * (1 << 20)})
 	}
+	runNewCache(t, &NewCacheCase{Attempts: 60000, Goroutines: 4})
 	fix.Check(t, "rawcache", 300, func(rt *rapid.T) { runCache(rt, drawCacheCase(rt)) })
 	fix.Check(t, "inprocess", 150, func(rt *rapid.T) { run(rt, drawCase(rt, 20000, false), "inprocess") })
 	fix.Check(t, "server", 6, func(rt *rapid.T) { run(rt, drawCase(rt, 20000, true), "server") })
